@@ -20,10 +20,32 @@ Record hobs := {
   ho_dev : list (option Z)                      (* content of the instrument's slots 1..n (None = undefined) *)
 }.
 
+(* numpy primitives the model relies on, each run on numpy itself (harness/props/c19_prims.py); `out` = what numpy
+   returned.  Integers of every dtype arrive as Z, booleans as bool. *)
+Inductive prim :=
+| PArgsort (a : list Z) (out : list Z)                         (* np.argsort(a, kind='stable') *)
+| PSortedPick (m : list bool) (a : list Z) (out : list Z)      (* np.flatnonzero(m)[np.argsort(a[m], kind='stable')[::-1]] *)
+| PFlatnonzero (m : list bool) (out : list Z)                  (* np.flatnonzero(m) *)
+| PMask (m : list bool) (a : list Z) (out : list Z)            (* a[m] *)
+| PTake (a : list Z) (idx : list Z) (out : list Z)             (* a[idx], idx non-negative and in range *)
+| PSearch (data xs : list Z) (outl outr : list Z)              (* np.searchsorted(data, xs, side, sorter=argsort(data)) *)
+| PArgmax (m : list bool) (out outrev : Z)                     (* np.argmax(m), np.argmax(m[::-1]) *)
+| PIncr (idx : list Z) (a : list Z) (out : list Z)             (* a[idx] += 1, duplicates in idx *)
+| PDecrWrap (idx : list Z) (a : list Z) (out : option (list Z)) (* a[idx] -= 1, negative indices wrap; None = IndexError *)
+| PSum16 (m : list bool) (a : list Z) (out : Z)                (* np.sum(a[m] + 16) *)
+| PAssignMask (w : list Z) (m : list bool) (v : list Z) (out : list Z)   (* w[m] = v, len(v) = count(m) *)
+| PFirstFree (r : list Z) (out : Z) (outslice : list Z)        (* flatnonzero(r > 0)[-1] + 1 or 0;  r[:that] *)
+| PSetAt (a : list Z) (i : Z) (v : Z) (out : list Z)           (* a[i] = v *)
+| PFindPositions (data xs : list Z) (out : list Z).            (* hardware/util.py::find_positions (qupulse, not numpy) *)
+
 Inductive case :=
 | CHist (total : Z) (ops : list op) (obs : list hobs)
 | CPlace (hashes refs caps : list Z) (total : Z) (new_hashes new_lens : list Z) (impl : impl_obs)
          (inputs_unchanged : bool)
+  (* the copy of the placement in hardware/feature_awg/tabor.py::TaborChannelTuple._find_place_for_segments_in_memory *)
+| CPlaceF (hashes refs caps : list Z) (total : Z) (new_hashes new_lens : list Z) (impl : impl_obs)
+          (inputs_unchanged : bool)
+| CPrim (p : prim)
 | CCrash.   (* the implementation crashed with an unexpected exception or did not return *)
 
 Definition error_eqb (a b : error) : bool :=
@@ -83,17 +105,138 @@ Definition obs_safe (o : hobs) : bool :=
   (* the driver's record of the slot contents (which clause 1 compares hashes against) is what the instrument holds *)
   && list_eqb (opt_eqb Z.eqb) (map Some (ho_hashes o)) (ho_dev o).
 
+Definition place_corr h r cp t nh nl impl : bool :=
+  match find_place {| m_hashes := h; m_refs := r; m_caps := cp; m_total := t |} nh nl, impl with
+  | Ok d, IRet w a i => zlist_eqb (d_w2s d) w && list_eqb Bool.eqb (d_amend d) a && zlist_eqb (d_insert d) i
+  | Err e, IRefuse (Some e') => error_eqb e e'
+  | Err (NotEnoughMemory | Fragmentation), IRefuse None => true
+  | _, _ => false
+  end.
+
+Fixpoint nodupb (l : list Z) : bool :=
+  match l with
+  | [] => true
+  | x :: r => negb (existsb (Z.eqb x) r) && nodupb r
+  end.
+
+(* ---- numpy primitives: model side (check_corr) and independent specification (check_spec) ---- *)
+Definition znat (l : list nat) : list Z := map Z.of_nat l.
+Definition nats (l : list Z) : list nat := map Z.to_nat l.
+Definition zidx_ok (n : nat) (l : list Z) : bool := forallb (fun i => (0 <=? i) && (i <? Z.of_nat n)) l.
+Definition indices_where (m : list bool) : list nat := filter (fun i => nth i m false) (seq 0 (length m)).
+
+Definition prim_corr (p : prim) : bool :=
+  match p with
+  | PArgsort a out => zlist_eqb (znat (argsort a)) out
+  | PSortedPick m a out =>
+      zlist_eqb (znat (take_idx 0%nat (flatnonzero m) (rev (argsort (mask m a))))) out
+  | PFlatnonzero m out => zlist_eqb (znat (flatnonzero m)) out
+  | PMask m a out => zlist_eqb (mask m a) out
+  | PTake a idx out => zlist_eqb (take_idx 0 a (nats idx)) out
+  | PSearch data xs outl outr =>
+      let sorted := take_idx 0 data (argsort data) in
+      zlist_eqb (map (fun x => Z.of_nat (count_lt x sorted)) xs) outl
+      && zlist_eqb (map (fun x => Z.of_nat (count_le x sorted)) xs) outr
+  | PArgmax m out outrev => (Z.of_nat (argmax_bool m) =? out) && (Z.of_nat (argmax_bool (rev m)) =? outrev)
+  | PIncr idx a out => zlist_eqb (incr_at (nats idx) a) out
+  | PDecrWrap idx a out =>
+      match norm_all (length a) idx, out with
+      | Some l, Some o => zlist_eqb (decr_at l a) o
+      | None, None => true
+      | _, _ => false
+      end
+  | PSum16 m a out => zsum (map (fun l => l + 16) (mask m a)) =? out
+  | PAssignMask w m v out => zlist_eqb (assign_mask w m v) out
+  | PFirstFree r out outslice =>
+      (Z.of_nat (first_free_of r) =? out) && zlist_eqb (firstn (first_free_of r) r) outslice
+  | PSetAt a i v out => zlist_eqb (set_nth (Z.to_nat i) v a) out
+  | PFindPositions data xs out => zlist_eqb (find_positions data xs) out
+  end.
+
+(* strictly ascending *)
+Fixpoint ascending (l : list Z) : bool :=
+  match l with
+  | x :: ((y :: _) as r) => (x <? y) && ascending r
+  | _ => true
+  end.
+(* stable order of the index list `out` w.r.t. keys a: keys ascending, equal keys by ascending index *)
+Fixpoint stable_sorted (a : list Z) (out : list Z) : bool :=
+  match out with
+  | i :: ((j :: _) as r) =>
+      let x := nth (Z.to_nat i) a 0 in let y := nth (Z.to_nat j) a 0 in
+      ((x <? y) || ((x =? y) && (i <? j))) && stable_sorted a r
+  | _ => true
+  end.
+Definition is_perm_of_range (n : nat) (out : list Z) : bool :=
+  Nat.eqb (length out) n && zidx_ok n out && nodupb out.
+
+Definition prim_spec (p : prim) : bool :=
+  match p with
+  | PArgsort a out => is_perm_of_range (length a) out && stable_sorted a out
+  | PSortedPick m a out =>
+      (* the True positions of m, by DESCENDING key, equal keys by DESCENDING position *)
+      Nat.eqb (length out) (length (indices_where m)) && nodupb out
+      && forallb (fun i => (0 <=? i) && nth (Z.to_nat i) m false) out
+      && stable_sorted a (rev out)
+  | PFlatnonzero m out =>
+      ascending out && forallb (fun i => (0 <=? i) && nth (Z.to_nat i) m false) out
+      && Nat.eqb (length out) (length (filter (fun b => b) m))
+  | PMask m a out => zlist_eqb (map (fun i => nth i a 0) (indices_where m)) out
+  | PTake a idx out => zidx_ok (length a) idx && zlist_eqb (map (fun i => nth (Z.to_nat i) a 0) idx) out
+  | PSearch data xs outl outr =>
+      (* counted on the UNSORTED data *)
+      zlist_eqb (map (fun x => Z.of_nat (length (filter (fun y => y <? x) data))) xs) outl
+      && zlist_eqb (map (fun x => Z.of_nat (length (filter (fun y => y <=? x) data))) xs) outr
+  | PArgmax m out outrev =>
+      let first (l : list bool) (o : Z) :=
+          (0 <=? o) && (if existsb (fun b => b) l
+                        then nth (Z.to_nat o) l false && negb (existsb (fun b => b) (firstn (Z.to_nat o) l))
+                        else o =? 0) in
+      first m out && first (rev m) outrev
+  | PIncr idx a out =>
+      zidx_ok (length a) idx
+      && zlist_eqb (map (fun k => nth k a 0 + (if existsb (Z.eqb (Z.of_nat k)) idx then 1 else 0)) (seq 0 (length a))) out
+  | PDecrWrap idx a out =>
+      let n := Z.of_nat (length a) in
+      if forallb (fun i => (- n <=? i) && (i <? n)) idx
+      then match out with
+           | Some o => zlist_eqb (map (fun k => nth k a 0 - (if existsb (fun i => (i =? Z.of_nat k) || (i + n =? Z.of_nat k)) idx
+                                                          then 1 else 0)) (seq 0 (length a))) o
+           | None => false
+           end
+      else match out with None => true | Some _ => false end
+  | PSum16 m a out => fold_left (fun acc i => acc + nth i a 0 + 16) (indices_where m) 0 =? out
+  | PAssignMask w m v out =>
+      Nat.eqb (length out) (length w)
+      && zlist_eqb (map (fun i => nth i out 0) (indices_where m)) v
+      && forallb (fun k => nth k m false || (nth k out 0 =? nth k w 0)) (seq 0 (length w))
+  | PFirstFree r out outslice =>
+      (0 <=? out) && (out <=? Z.of_nat (length r))
+      && ((out =? 0) || (0 <? nth (Z.to_nat (out - 1)) r 0))
+      && forallb (fun k => (Z.of_nat k <? out) || (nth k r 0 <=? 0)) (seq 0 (length r))
+      && zlist_eqb (map (fun k => nth k r 0) (seq 0 (Z.to_nat out))) outslice
+  | PSetAt a i v out =>
+      (0 <=? i) && (i <? Z.of_nat (length a)) && Nat.eqb (length out) (length a)
+      && forallb (fun k => nth k out 0 =? (if Z.of_nat k =? i then v else nth k a 0)) (seq 0 (length a))
+  | PFindPositions data xs out =>
+      (* first index holding the value, -1 when absent *)
+      zlist_eqb (map (fun x => match find (fun k => nth k data 0 =? x) (seq 0 (length data)) with
+                               | Some k => Z.of_nat k
+                               | None => -1
+                               end) xs) out
+  end.
+
 Definition check_corr (c : case) : bool :=
   match c with
   | CHist total ops obs => hist_corr (clear total) ops obs
   | CPlace h r cp t nh nl impl unchanged =>
       unchanged &&   (* the function is pure: the driver's arrays are not modified *)
-      match find_place {| m_hashes := h; m_refs := r; m_caps := cp; m_total := t |} nh nl, impl with
-      | Ok d, IRet w a i => zlist_eqb (d_w2s d) w && list_eqb Bool.eqb (d_amend d) a && zlist_eqb (d_insert d) i
-      | Err e, IRefuse (Some e') => error_eqb e e'
-      | Err (NotEnoughMemory | Fragmentation), IRefuse None => true
-      | _, _ => false
-      end
+      place_corr h r cp t nh nl impl
+  | CPlaceF h r cp t nh nl impl unchanged =>
+      (* this copy sorts with numpy's default (unstable) sort: compared with the model only where no two capacities
+         and no two new lengths are equal; with ties only the four clauses are checked (check_spec) *)
+      unchanged && (if nodupb cp && nodupb nl then place_corr h r cp t nh nl impl else true)
+  | CPrim p => prim_corr p
   | CCrash => false
   end.
 
@@ -105,7 +248,8 @@ Definition check_spec (c : case) : bool :=
   | CHist total ops obs =>
       Nat.eqb (length ops) (length obs) && forallb obs_safe obs
       && forallb (fun o => zsum (ho_caps o) <=? total) obs      (* the defined slots fit into the instrument *)
-  | CPlace h r cp t nh nl impl _ =>
+  | CPrim p => prim_spec p
+  | CPlace h r cp t nh nl impl _ | CPlaceF h r cp t nh nl impl _ =>
       match impl with
       | IRet w a i => negb (forallb (fun x => 0 <=? x) r) ||
                       decision_okb {| m_hashes := h; m_refs := r; m_caps := cp; m_total := t |} nh nl
